@@ -545,6 +545,17 @@ func genChunked(t *rapid.T, label string) Chunked {
 		c.Chunks = append(c.Chunks, rapid.SampledFrom([]int{1, 3, 17, 100, 2048, 5000}).Draw(t, label+"Chunk"))
 	}
 	c.PauseUs = rapid.SampledFrom([]int{0, 0, 100, 1000}).Draw(t, label+"Pause")
+	// The relay copies through fixed-size buffers: aim at totals that are exact multiples of the usual
+	// sizes (and one either side), sent in one piece and followed by silence.
+	if rapid.IntRange(0, 5).Draw(t, label+"ExactSize") == 0 {
+		total := rapid.SampledFrom([]int{1023, 1024, 1025, 2047, 2048, 2049, 4095, 4096, 4097, 6144, 8192}).Draw(t, label+"Total")
+		b := c.Bytes()
+		for len(b) < total {
+			b = append(b, trafficPiece(t)...)
+		}
+		c.Pieces = []stats.Hex{b[:total]}
+		c.Chunks = nil
+	}
 	return c
 }
 
